@@ -50,6 +50,61 @@ def inject(m, fault, rnd):
     return m
 
 
+TYPENAMES = {"id_t", "rec_t", "sys_t", "int8_t", "uint8_t", "int16_t", "uint16_t", "int32_t"}
+NOT_GRAMMAR = {"add_position", "set_position", "is_type", "handle_warning"}       # callbacks the lexer / tracker make, not the grammar's actions
+
+
+def spec_level(c, models, quick, rnd):
+    """MirrorXTA.tla: the .xta token string of a sample of models through LR.tla (extracted automaton) and Builder.tla must give
+    Expected(M); the callbacks LR.tla emits are compared with those recorded from the real parser on the same text"""
+    import xtalex
+    gen = os.path.join(vf.lib_dir("plain"), "gen")
+    sc = xtalex.Scanner(os.path.join(gen, "lexemes.json"))
+    vf.build_harness("record", "plain")
+    sample = list(models)
+    rnd.shuffle(sample)
+    nsmp = 250 if quick else 2500
+    # half at random, half the structurally largest (edges, instances, features): where the grammar's list rules iterate
+    big = sorted(sample[nsmp // 2:], key=lambda e: -(sum(len(t["edges"]) + len(t["locs"]) for t in e["m"]["templs"]) + 2 * len(e["m"]["insts"]) + len(e["m"]["gdecl"]) + len(e["m"].get("sysx", []))))
+    sample = sorted(sample[:nsmp // 2] + big[:nsmp - nsmp // 2], key=lambda e: json.dumps(e["m"], sort_keys=True))
+    docs, jobs = [], []
+    for k, e in enumerate(sample):
+        text = docgen.render_xta(e["m"], abbreviate=(k % 2 == 0))
+        docs.append({"id": "s%d" % k, "toks": sc.scan(text, TYPENAMES), "exp": e["exp"]})
+        jobs.append({"id": "s%d" % k, "entry": "xta", "text": text, "positions": True, "analysis": False, "walk": False, "timeout": 60})
+    path = os.path.join(c.run_dir, "xtadocs.ndjson")
+    vf.write_ndjson(path, docs)
+    mc = vf.run_tlc("MirrorXTA", "XmlReader.cfg", c.run_dir, env={"LR_TABLES": os.path.join(gen, "lr_tables.json"), "XTA_DOCS": path}, timeout=3000, xmx="16g", workers=1, keep_out=False)
+    c.add_tlc("MirrorXTA", mc, "whole .xta files of %d models through the extracted automaton and the transcribed builder: Accepted, MirrorsM" % len(docs))
+    out = {e["id"]: e for e in mc.emitted if "graphs" in e}
+    if len(out) != len(docs):
+        raise vf.MachineryError("MirrorXTA evaluated %d of %d documents" % (len(out), len(docs)))
+    res = vf.run_jobs(jobs, c.run_dir, variant="plain", harness="record", name="xtarec")
+    ndrift = ncb = 0
+    for d, j in zip(docs, jobs):
+        o, r = out[d["id"]], res[d["id"]]
+        if not (o["accepted"] and o["graphs"] and o["system"] and o["docinv"]):
+            ndrift += 1
+            if ndrift <= 5:
+                print("DRIFT property=C05 MirrorXTA.tla: the specifications do not yield Expected(M) for %s: %s" % (d["id"], json.dumps({k: o[k] for k in o if k not in ("cbs", "id")})[:300]))
+                open(os.path.join(c.run_dir, "mirrorxta-%s.xta" % d["id"]), "w").write(j["text"])
+        evs = r.get("events", [])
+        starts = [i for i, ev in enumerate(evs) if ev["cb"] == "add_position" and ev["a"][1] == 0 and ev["a"][2] == 1]
+        if len(starts) < 2:
+            raise vf.MachineryError("recorded trace of %s has no second text block: %s" % (d["id"], json.dumps(r)[:300]))
+        real = [ev["cb"] for ev in evs[starts[1]:] if ev["cb"] not in NOT_GRAMMAR and "d" not in ev]        # d: a callback the builder made on itself
+        spec = [x for x in o["cbs"] if x not in NOT_GRAMMAR]
+        ncb += len(real)
+        if real != spec:
+            k = next((i for i, (a, b) in enumerate(zip(real, spec)) if a != b), min(len(real), len(spec)))
+            raise vf.MachineryError("LR.tla and the real parser disagree on the .xta text of %s at callback %d: real %s, spec %s (scanner lib/xtalex.py or the extracted tables are stale)" % (
+                d["id"], k, real[k:k + 3], spec[k:k + 3]))
+    c.cov["spec_level_xta_documents"] = len(docs)
+    c.cov["spec_level_xta_callbacks_agreeing_with_real_parser"] = ncb
+    c.cov["spec_level_xta_not_mirroring"] = ndrift
+    return len(docs)
+
+
 def run(tier):
     c = vf.Check("C05", tier)
     quick = tier == "quick"
@@ -89,8 +144,9 @@ def run(tier):
         if d:
             c.finding("c05:%s:%s" % (kind, docgen.diff_class(d[0])),
                       "documents differ at %s: xml %s, xta %s" % (d[0][0], json.dumps(d[0][1])[:200], json.dumps(d[0][2])[:200]), dict(rep, differences=d))
-    c.cov["traces_validated_against_impl"] = ncmp
-    c.cov["evaluations"] = 2 * ncmp
+    nspec = spec_level(c, models, quick, rnd)
+    c.cov["traces_validated_against_impl"] = ncmp + nspec
+    c.cov["evaluations"] = 2 * ncmp + nspec
     c.cov["distinct_nontrivial"] = sum(1 for k, m, f in cases if any(t["edges"] for t in m["templs"]))
     c.cov.update({"models": len(models), "pairs_compared": ncmp, "rejected_pairs_compared": nrej})
     c.cov["rule"] = "models = distinct 'done' states of DocGen.tla (+ one injected semantic fault for a sample); every model rendered as .xml and .xta and both documents compared; non-trivial = has edges"
